@@ -99,6 +99,13 @@ def run(ctx):
                 bad = "get_descendants does not return every descendant exactly once"
             elif [id(x) for x in runs] != [id(x) for x in desc if isinstance(x, D.Run)]:
                 bad = "get_descendants_of_type is not the filter of get_descendants"
+            else:
+                # also for the element's OWN type (the element is not one of its descendants) and for a leaf type
+                for ty in (type(first), D.Text, D.Paragraph, D.Table):
+                    got_ty = transforms.get_descendants_of_type(first, ty)
+                    if [id(x) for x in got_ty] != [id(x) for x in desc if isinstance(x, ty)]:
+                        bad = "get_descendants_of_type(%s, %s) is not exactly the descendants of that type" % (type(first).__name__, ty.__name__)
+                        break
         meta = {"document": [T.delem_json(c) for c in doc.children], "entry": ["paragraph", "run", "text", "tab"][ek], "family": k, "index": i}
         if bad:
             ctx.violation("oracle", bad, dict(meta, api="mammoth.transforms"), True)
